@@ -10,7 +10,7 @@ VARIABLES phase, lst
 
 Prefix == S("example.com/m@v1.0.0/")
 PathsCore == <<S("a"), S("A"), S("b.go"), S("go.mod"), S("GO.MOD"), S("sub/go.mod"), S("sub/a.go"), S("vendor/p/x.go"), S("vendor/modules.txt"),
-               S("pkg/vendor/vendor.go"), S("pkg/vendor/p/x.go"), S("dir/f"), S("dirx/f"), S("DIR/g"), S("testdata/example.com/m@v1.0.0/m.go"), S("b.go/c"), S("LICENSE"), S("a//b"), S("/abs"), S("con"), <<233>>, <<201>>>>
+               S("pkg/vendor/vendor.go"), S("pkg/vendor/p/x.go"), S("dir/f"), S("dirx/f"), S("DIR/g"), S("testdata/example.com/m@v1.0.0/m.go"), S("logo.mod"), S("x/a.go.mod"), S("dir/LICENSE"), S("b.go/c"), S("LICENSE"), S("a//b"), S("/abs"), S("con"), <<233>>, <<201>>>>
 PathsMore == <<S("Go.Mod"), S("sub/GO.MOD"), S("Sub/x"), S("vendor/x.go"), <<8490>>, S("k"), <<383>>, S("s"), S("aux.txt"), S("a~1"), S("a b"), S("."), S(".."), S("../a"),
                S("a."), S(".hg_archival.txt"), S("a/b"), S("a/"), S("a/./b"), S("a/../b"), S("x*y"), S("sub/sub2/b.go"), S("vendor/modules.txt/x"), <<181>>, <<924>>, <<956>>, <<946>>, <<914>>,
                \* a nested module inside a vendor directory below the root, a reserved name with two extensions,
@@ -22,7 +22,7 @@ Variants(p) ==
     {File(p, "regular", "small", FALSE, "none")}
     \cup (IF p \in {S("a"), S("dir/f"), S("go.mod"), S("sub/go.mod"), S("b.go")} THEN {File(p, "dir", "small", FALSE, "none"), File(p, "symlink", "small", FALSE, "none"),
                                                                                       File(p, "irregular", "small", FALSE, "none"), File(p, "regular", "small", TRUE, "none")} ELSE {})
-    \cup (IF p \in {S("go.mod"), S("LICENSE"), S("a")} THEN {File(p, "regular", "big", FALSE, "none")} ELSE {})
+    \cup (IF p \in {S("go.mod"), S("LICENSE"), S("a"), S("dir/LICENSE")} THEN {File(p, "regular", "big", FALSE, "none")} ELSE {})
     \cup (IF p = S("go.mod") THEN {File(p, "regular", "small", FALSE, g) : g \in {"old", "new", "bad"}} ELSE {})
 AllFiles == UNION {Variants(Paths[i]) : i \in 1..Len(Paths)}
 \* archive entries
